@@ -10,6 +10,7 @@ VARIABLES l, number, validators, pending, recents, cons, last,
 Vals == {1, 2, 3, 4, 5, 6, 7}
 InitNumber == 0
 InitSet == {}
+InitAnn == {}
 InitSigner == 0
 MaxNumber == 1000
 UpgradeSets == {}
@@ -32,8 +33,14 @@ RecordAfter(n, sg, vs, vs2) ==
        drop1 == IF vs2 # vs /\ newLimit < oldLimit THEN { USub(USub(n, newLimit), i) : i \in 0..(oldLimit - newLimit - 1) } ELSE {}
        drop2 == IF n >= newLimit THEN {n - newLimit} ELSE {}
    IN Restrict(rec0, (DOMAIN rec0) \ (drop1 \cup drop2))
+AnnOf(a) == IF "ann" \in DOMAIN a THEN SetOf(a.ann) ELSE SetOf(a.set)     \* what the creation header announces
 Judge(k) ==
   /\ Report(k, "C09.ConsRootsAreHeaderRoots", ln(k).st.rootsok /\ ln(k).st.headok)
+  (* a client created (or toggled to this type) by governance is initialised the way the type requires: the set in force is the   *)
+  (* proposal's, the pending set is the list the installed epoch header announces, the window holds that header's sealer          *)
+  /\ Report(k, "C18.BscCreateInstalls", ln(k).ev = "Reset" =>
+        (number' = ln(k).args.number /\ validators' = SetOf(ln(k).args.set) /\ pending' = AnnOf(ln(k).args)
+         /\ DOMAIN recents' = {ln(k).args.number} /\ recents'[ln(k).args.number] = ln(k).args.signer))
   /\ IsStep(k) =>
      LET hd == Hd(ln(k).args.hd)  ok == ln(k).res = "ok" /\ ln(k).ev = "Update"  upg == ln(k).res = "ok" /\ ln(k).ev = "Upgrade" IN
      (* a governance upgrade installs exactly the proposal: head, validator set, the announced pending set, a reset window (C18 for the BSC type) *)
@@ -55,6 +62,7 @@ Judge(k) ==
      /\ Report(k, "C09.SetSwitchesAtOffset", (ok /\ number' % Epoch = Cardinality(validators) \div 2) => validators' = pending')
      (* the same against the trace's own record of what the last epoch header announced *)
      /\ Report(k, "C09.SwitchesToAnnounced", (ok /\ validators' # validators) => validators' = announced')
+     /\ Report(k, "C09.SwitchesAtOffsetToAnnounced", (ok /\ number' % Epoch = Cardinality(validators) \div 2) => validators' = announced')
      /\ Report(k, "C09.PendingIsAnnounced", (ok \/ upg) => pending' = announced')
      /\ Report(k, "C09.PendingOnlyAtEpoch", pending' # pending => ((ok \/ upg) /\ number' % Epoch = 0 /\ pending' = hd.extra))
      /\ Report(k, "C09.ConsIsRoot", ok => (cons' = cons \cup {hd.number} /\ number' = hd.number))
@@ -71,7 +79,7 @@ TNext == LET k == l + 1 IN
   /\ sealed' = IF ln(k).ev = "Reset" THEN (ln(k).args.number :> ln(k).args.signer)
                ELSE IF ln(k).res = "ok" /\ ln(k).ev = "Upgrade" THEN (ln(k).args.hd.number :> ln(k).args.hd.signer)   \* the client starts over from the proposal's header
                ELSE IF ln(k).res = "ok" THEN RecordAfter(ln(k).args.hd.number, ln(k).args.hd.signer, validators, SetOf(ln(k).st.validators)) ELSE sealed
-  /\ announced' = IF ln(k).ev = "Reset" THEN SetOf(ln(k).args.set)
+  /\ announced' = IF ln(k).ev = "Reset" THEN AnnOf(ln(k).args)
                   ELSE IF ln(k).res = "ok" /\ (ln(k).ev = "Upgrade" \/ ln(k).args.hd.number % Epoch = 0) THEN SetOf(ln(k).args.hd.extra) ELSE announced
   /\ Judge(k) /\ Conform(k)
 TSpec == TInit /\ [][TNext]_<<l, vars, sealed, announced>>
